@@ -56,6 +56,10 @@ var classRes = []struct {
 	{regexp.MustCompile(`got a non-closable value`), "noclose"},
 	{regexp.MustCompile(`^invalid key`), "badkey"},
 	{regexp.MustCompile(`^'__tostring' must return a string`), "tostring-nonstring"},
+	{regexp.MustCompile(`^cannot resume dead (coroutine|thread)`), "codead"},
+	{regexp.MustCompile(`^cannot resume (non-suspended|running|normal)`), "conotsuspended"},
+	{regexp.MustCompile(`^(attempt to yield from outside a coroutine|cannot yield from main thread)`), "yieldmain"},
+	{regexp.MustCompile(`^cannot close (a )?(running|normal)`), "coclose"},
 }
 
 // canonStr maps a runtime error message to `<prefix>!<class>`; other strings are unchanged.
@@ -105,7 +109,10 @@ func encVals(vs []rt.Value) string {
 // RunLua runs runLua with a wall-clock bound.  A mutated golua may spin inside Go code that no CPU limit
 // reaches; such a goroutine cannot be stopped, so after the first timeout every further run happens in a child
 // process (`c01 runone`, killed on timeout) and the abandoned goroutine only costs one core until exit.
-var poisoned bool
+var (
+	poisoned bool
+	timeouts int
+)
 
 func RunLua(src string, args []rt.Value) string {
 	if poisoned {
@@ -117,8 +124,9 @@ func RunLua(src string, args []rt.Value) string {
 	case o := <-ch:
 		return o
 	case <-time.After(4 * time.Second):
+		// either golua really hangs or the machine is overloaded: decide in a child process with a generous bound
 		poisoned = true
-		return "timeout"
+		return runIsolated(src, args)
 	}
 }
 
@@ -131,12 +139,17 @@ func runIsolated(src string, args []rt.Value) string {
 	for _, a := range args {
 		argv = append(argv, hlib.Enc(a))
 	}
-	ctx, cancel := context.WithTimeout(context.Background(), 4*time.Second)
+	limit := 20 * time.Second
+	if timeouts >= 8 { // golua really hangs on many programs (a mutated tree): do not spend minutes on each
+		limit = 3 * time.Second
+	}
+	ctx, cancel := context.WithTimeout(context.Background(), limit)
 	defer cancel()
 	cmd := exec.CommandContext(ctx, exe, argv...)
 	cmd.Stdin = strings.NewReader(src)
 	out, err := cmd.Output()
 	if ctx.Err() != nil {
+		timeouts++
 		return "timeout"
 	}
 	if err != nil && len(out) == 0 {
